@@ -39,6 +39,16 @@ CHECKS = {
             'connection+namespace+id with exactly the acknowledged arguments, '
             'wrong ACKs cause no callback and no contained error, call() '
             'result shaping and TimeoutError.'),
+    'C11': ('DESIGN 4/C11',
+            'Seeded search over generations of wire peers living random lives '
+            '(connects incl. refused, rooms, events incl. malformed, binary '
+            'packets cut short, unanswered callbacks) ended by any cause '
+            '(DISCONNECTs+close, sever, server.disconnect, engine.io CLOSE, '
+            'half-open until ping timeout in virtual time) with a seeded '
+            'subset of application handler invocations raising; oracle = '
+            'nothing of an ended transport is listed anywhere, final '
+            'structural snapshot equals a freshly built server, reachable '
+            'object graph does not grow across generations.'),
     'C20': ('DESIGN 4/C20',
             'Seeded search over thread interleavings (uniform random and PCT '
             'd=1..3) of 2-3 concurrent terminating actions on one sid of the '
